@@ -728,4 +728,80 @@ Section Hist3.
   Proof.
     intros Hops Hnd w. apply h_disj. subst w. apply run_hinv; [apply hinv_init|exact Hops|exact Hnd|intros nm _; split; intros []].
   Qed.
+
+  (* ---------- the general form: validity of each operation is judged in the state it is applied to ----------
+     Nodes may also be created WITH pod CIDRs while no informer is watching (controller down, or up but informers not yet
+     started), provided those CIDRs overlap nothing another holder holds; a name may be used again once the deletion of
+     its previous bearer has been processed. *)
+  Definition op_ok (w : world) (o : op) : Prop :=
+    match o with
+    | UMarkNodeDeleting _ | DeliverNodeTombstone | RelistNodes => False
+    | UCreateNode name _ cs =>
+        ~ In name (dead_names (w_nfeed w)) /\ Forall wf_pcidr cs /\
+        (cs = [] \/ (w_synced w = false /\ forall c cn, In (PGood c cn) cs -> forall n2 d, holder w n2 d -> n2 <> name -> overlapb c d = false))
+    | UCreateCC obj => good_obj obj
+    | Construct s1 s2 _ => (forall s, s1 = Some s -> wf_cidr s) /\ (forall s, s2 = Some s -> wf_cidr s)
+    | _ => True
+    end.
+
+  Fixpoint valid (w : world) (ops : list op) : Prop :=
+    match ops with
+    | [] => True
+    | o :: r => op_ok w o /\ valid (fst (step po lab w o)) r
+    end.
+
+  Lemma create_preset_hinv w name ls cs :
+    HInv w -> Forall wf_pcidr cs -> w_synced w = false ->
+    (forall c cn, In (PGood c cn) cs -> forall n2 d, holder w n2 d -> n2 <> name -> overlapb c d = false) ->
+    HInv (fst (step po lab w (UCreateNode name ls cs))).
+  Proof.
+    intros I Hwf Hs Hav. pose proof (step_winv po lab w (UCreateNode name ls cs) (h_w w I) Hwf) as W'.
+    cbn [step] in *. destruct (find_anode name (w_nodes w)) eqn:Ef; [exact I|]. cbn [fst] in *.
+    destruct (h_uns w I Hs) as (Hc0 & Hf0 & Hft0).
+    set (a' := mkANode name ls cs false) in *.
+    assert (Hpush : push_nev w (NAdd (node_view a')) = []) by (unfold push_nev; rewrite Hs; exact Hf0).
+    rewrite Hpush in *.
+    assert (Hhold : forall n c, holder (set_api w (w_nodes w ++ [a']) (w_ccs w) (w_rv w) [] (w_cfeed w)) n c ->
+              (n = name /\ exists cn, In (PGood c cn) cs) \/ (holder w n c /\ n <> name)).
+    { intros n c [(b & Hb & Hn & Hc)|(x & cn & [] & _)].
+      cbn [set_api w_nodes] in Hb. apply in_app_or in Hb. destruct Hb as [Hb|[<-|[]]].
+      - right. split; [left; exists b; repeat split; assumption|]. intros E. apply (find_anode_none _ _ Ef). rewrite <- E, <- Hn. apply in_map. exact Hb.
+      - left. split; [symmetry; exact Hn|exact Hc]. }
+    pose proof I as I0. hsplit I; try assumption.
+    - rewrite map_app. cbn. apply NoDup_app_snoc; [exact Hnm|apply find_anode_none; exact Ef].
+    - intros x Hx. apply in_app_or in Hx. destruct Hx as [Hx|[<-|[]]]; [apply Hnd; exact Hx|reflexivity].
+    - intros e [].
+    - intros x [].
+    - apply NoDup_nil.
+    - intros n1 c1 n2 c2 H1 H2 Hne. destruct (Hhold _ _ H1) as [[-> (cn1 & Hc1)]|[H1' Hn1]]; destruct (Hhold _ _ H2) as [[-> (cn2 & Hc2)]|[H2' Hn2]].
+      + contradiction.
+      + exact (Hav c1 cn1 Hc1 n2 c2 H2' Hn2).
+      + rewrite overlapb_sym. exact (Hav c2 cn2 Hc2 n1 c1 H1' Hn1).
+      + exact (Hdj n1 c1 n2 c2 H1' H2' Hne).
+    - intros E. rewrite Hs in E. discriminate E.
+    - intros y Hy. exfalso. unfold copy_of in Hy. cbn [set_api w_ncache w_nfeed] in Hy. rewrite Hc0 in Hy. destruct Hy as [[]|[[]|[]]].
+    - intros _. split; [exact Hc0|]. split; [reflexivity|exact Hft0].
+  Qed.
+
+  Lemma op_ok_step w o : HInv w -> op_ok w o -> HInv (fst (step po lab w o)).
+  Proof.
+    intros I Hok. destruct o; try (apply step_hinv; [exact I|exact Hok|intros nm []]); cbn [op_ok] in Hok; try contradiction.
+    - (* UCreateNode *)
+      destruct Hok as (Hfr & Hwf & [->|[Hs Hav]]).
+      + apply step_hinv; [exact I|reflexivity|]. intros nm [<-|[]]. exact Hfr.
+      + apply create_preset_hinv; assumption.
+  Qed.
+
+  Theorem valid_hinv ops : forall w, HInv w -> valid w ops -> HInv (run po lab w ops).
+  Proof.
+    induction ops as [|o ops IH]; intros w I H; [exact I|]. destruct H as [H1 H2].
+    unfold run. cbn [fold_left]. apply IH; [apply op_ok_step; assumption|exact H2].
+  Qed.
+
+  (* C01 / C03 in their general form *)
+  Theorem no_overlap_in_valid_histories ops :
+    valid init_world ops ->
+    let w := run po lab init_world ops in
+    forall n1 c1 n2 c2, holder w n1 c1 -> holder w n2 c2 -> n1 <> n2 -> overlapb c1 c2 = false.
+  Proof. intros H w. apply h_disj. subst w. apply valid_hinv; [apply hinv_init|exact H]. Qed.
 End Hist3.
